@@ -7,13 +7,18 @@ import (
 	"context"
 	"encoding/json"
 	"fmt"
+	"io"
+	"log"
 	"os"
 	"os/exec"
 	"path/filepath"
+	"runtime"
 	"sort"
 	"strconv"
 	"strings"
+	"sync"
 	"testing"
+	"time"
 
 	"github.com/grafana/regexp"
 
@@ -133,7 +138,10 @@ func c17Desc(id uint32) zoekt.Repository {
 	}
 }
 
+// Every (shard) builder allocates ~35 MB of posting tables; collecting right away lets the
+// next one reuse the same pages (fresh pages are very slow to fault in on the check machines).
 func c17Build(dir string, r c17Repo, delta bool) error {
+	defer runtime.GC()
 	opts := index.Options{IndexDir: dir, RepositoryDescription: c17Desc(r.ID), DisableCTags: true, IsDelta: delta, Parallelism: 1, ShardMax: 1 << 20}
 	b, err := index.NewBuilder(opts)
 	if err != nil {
@@ -180,6 +188,7 @@ func c17Shards(dir string) []string {
 }
 
 func c17Merge(dir string, names []string) (string, error) {
+	defer runtime.GC()
 	var files []index.IndexFile
 	for _, fn := range names {
 		f, err := os.Open(fn)
@@ -233,7 +242,7 @@ func c17Materialize(dir string, c *c17Corpus) ([]string, error) {
 					paths[k] = p
 				}
 			}
-			if paths[k] == "" {
+			if paths[k] == "" && len(sh.Repos[0].Docs) > 0 {
 				return nil, fmt.Errorf("build %d wrote no shard", k)
 			}
 		}
@@ -452,10 +461,10 @@ func c17Observe(s zoekt.Searcher, at, qi int, q c17Query) c17Entry {
 }
 
 // c17Snapshot reloads every shard and the directory and projects all channels of all queries.
-func c17Snapshot(dir string, paths []string, only int, c *c17Corpus) ([]c17Entry, error) {
+func c17Snapshot(dir string, paths []string, c *c17Corpus) ([]c17Entry, error) {
 	var snap []c17Entry
 	for k, p := range paths {
-		if only > 0 && k+1 != only {
+		if p == "" { // a delta build without documents writes no shard
 			continue
 		}
 		f, err := os.Open(p)
@@ -476,9 +485,6 @@ func c17Snapshot(dir string, paths []string, only int, c *c17Corpus) ([]c17Entry
 			snap = append(snap, c17Observe(s, k+1, qi+1, q))
 		}
 		s.Close()
-	}
-	if os.Getenv("C17_NODIR") != "" {
-		return snap, nil
 	}
 	ds, err := search.NewDirectorySearcher(dir)
 	if err != nil {
@@ -507,11 +513,16 @@ func c17Leftovers(dir string) int {
 
 type c17Run struct {
 	tr    *verifkit.Trace
+	mu    sync.Mutex
 	snaps map[string]int
 }
 
+// snapID numbers distinct snapshots; the definition goes to the trace when first seen (always
+// before the step that refers to it is written).
 func (r *c17Run) snapID(snap []c17Entry) int {
 	b, _ := json.Marshal(snap)
+	r.mu.Lock()
+	defer r.mu.Unlock()
 	if id, ok := r.snaps[string(b)]; ok {
 		return id
 	}
@@ -572,7 +583,8 @@ func TestVerif_C17_Child(t *testing.T) {
 	}
 }
 
-func (r *c17Run) steps(t testing.TB, dir string, paths []string, c *c17Corpus, target int, ops []c17Op) {
+// steps applies ops to shard `target`, observing after each; events are appended to out.
+func (r *c17Run) steps(t testing.TB, dir string, paths []string, c *c17Corpus, target int, ops []c17Op, out *[]verifkit.M) {
 	for _, op := range ops {
 		reported, injected := "ok", 0
 		if op.Fault {
@@ -580,17 +592,25 @@ func (r *c17Run) steps(t testing.TB, dir string, paths []string, c *c17Corpus, t
 		} else if err := c17Apply(paths[target-1], op); err != nil {
 			reported = "err"
 		}
-		snap, err := c17Snapshot(dir, paths, 0, c)
+		snap, err := c17Snapshot(dir, paths, c)
 		if err != nil {
-			t.Fatalf("snapshot: %v", err)
+			t.Errorf("snapshot: %v", err)
+			return
 		}
 		_, serr := os.Stat(paths[target-1] + ".meta")
-		r.tr.Emit(verifkit.M{"ev": "step", "op": op.Op, "id": op.ID, "shard": target, "fault": op.Fault,
+		*out = append(*out, verifkit.M{"ev": "step", "op": op.Op, "id": op.ID, "shard": target, "fault": op.Fault,
 			"injected": injected, "reported": reported, "snap": r.snapID(snap),
 			"sidecar": serr == nil, "leftovers": c17Leftovers(dir)})
 	}
 }
 
+func (r *c17Run) flush(evs []verifkit.M) {
+	for _, e := range evs {
+		r.tr.Emit(e)
+	}
+}
+
+// corpus builds the scenario, announces it and observes the pristine state.
 func (r *c17Run) corpus(t testing.TB, c *c17Corpus) (dir string, paths []string) {
 	c17Fix(c)
 	dir, err := os.MkdirTemp(os.Getenv("VERIF_WORK"), "c17d")
@@ -602,7 +622,7 @@ func (r *c17Run) corpus(t testing.TB, c *c17Corpus) (dir string, paths []string)
 		t.Fatalf("materialize: %v", err)
 	}
 	r.tr.Emit(verifkit.M{"ev": "corpus", "kind": c.Kind, "shards": c.Shards, "queries": c.Queries})
-	snap, err := c17Snapshot(dir, paths, 0, c)
+	snap, err := c17Snapshot(dir, paths, c)
 	if err != nil {
 		t.Fatalf("snapshot: %v", err)
 	}
@@ -611,7 +631,7 @@ func (r *c17Run) corpus(t testing.TB, c *c17Corpus) (dir string, paths []string)
 }
 
 // reset brings the compound shard back to its pristine state (no sidecar).
-func (r *c17Run) reset(t testing.TB, dir string, paths []string, c *c17Corpus, observe bool) {
+func c17Reset(dir string, paths []string, out *[]verifkit.M) {
 	os.Remove(paths[0] + ".meta")
 	ents, _ := os.ReadDir(dir)
 	for _, e := range ents {
@@ -619,38 +639,71 @@ func (r *c17Run) reset(t testing.TB, dir string, paths []string, c *c17Corpus, o
 			os.Remove(filepath.Join(dir, e.Name()))
 		}
 	}
-	id := 0
-	if observe {
-		snap, err := c17Snapshot(dir, paths, 0, c)
-		if err != nil {
-			t.Fatalf("snapshot: %v", err)
-		}
-		id = r.snapID(snap)
-	}
-	r.tr.Emit(verifkit.M{"ev": "reset", "snap": id, "leftovers": c17Leftovers(dir)})
+	*out = append(*out, verifkit.M{"ev": "reset", "snap": 0, "leftovers": c17Leftovers(dir)})
 }
 
-// TestVerif_C17_Replay: the corpus and the operation sequences come from Tombstone.tla.
+func c17CopyDir(t testing.TB, src string) (string, []string) {
+	dst, err := os.MkdirTemp(os.Getenv("VERIF_WORK"), "c17w")
+	if err != nil {
+		t.Fatal(err)
+	}
+	ents, _ := os.ReadDir(src)
+	for _, e := range ents {
+		b, err := os.ReadFile(filepath.Join(src, e.Name()))
+		if err != nil {
+			t.Fatal(err)
+		}
+		if err := os.WriteFile(filepath.Join(dst, e.Name()), b, 0o644); err != nil {
+			t.Fatal(err)
+		}
+	}
+	return dst, c17Shards(dst)
+}
+
+// TestVerif_C17_Replay: the corpus and the operation sequences come from Tombstone.tla
+// (first line: corpus and queries, then one script per line).  Scripts are independent
+// (each starts from the pristine shard), so they are spread over a few workers, each with its
+// own copy of the directory; events are written in script order.
 func TestVerif_C17_Replay(t *testing.T) {
 	raw := verifkit.ReadScripts(t)
 	tr := verifkit.Open(t)
 	defer tr.Close()
+	log.SetOutput(io.Discard)
 	r := &c17Run{tr: tr, snaps: map[string]int{}}
 	var c c17Corpus
 	if err := json.Unmarshal(raw[0], &c); err != nil {
 		t.Fatal(err)
 	}
-	dir, paths := r.corpus(t, &c)
+	t0 := time.Now()
+	dir, _ := r.corpus(t, &c)
 	defer os.RemoveAll(dir)
-	for i, line := range raw[1:] {
-		var sc c17Script
-		if err := json.Unmarshal(line, &sc); err != nil {
-			t.Fatal(err)
-		}
-		if i > 0 {
-			r.reset(t, dir, paths, &c, false)
-		}
-		r.steps(t, dir, paths, &c, 1, sc.Ops)
+	t.Logf("corpus built in %v", time.Since(t0))
+	t0 = time.Now()
+	defer func() { t.Logf("scripts replayed in %v", time.Since(t0)) }()
+	scripts := raw[1:]
+	bufs := make([][]verifkit.M, len(scripts))
+	workers := verifkit.EnvInt("C17_WORKERS", 4)
+	var wg sync.WaitGroup
+	for w := 0; w < workers; w++ {
+		wg.Add(1)
+		go func(w int) {
+			defer wg.Done()
+			wdir, wpaths := c17CopyDir(t, dir)
+			defer os.RemoveAll(wdir)
+			for i := w; i < len(scripts); i += workers {
+				var sc c17Script
+				if err := json.Unmarshal(scripts[i], &sc); err != nil {
+					t.Error(err)
+					return
+				}
+				c17Reset(wdir, wpaths, &bufs[i])
+				r.steps(t, wdir, wpaths, &c, 1, sc.Ops, &bufs[i])
+			}
+		}(w)
+	}
+	wg.Wait()
+	for _, b := range bufs {
+		r.flush(b)
 	}
 }
 
@@ -734,7 +787,8 @@ func c17RandQuery(rng interface{ Intn(int) int }, ids []uint32, depth int, allow
 func TestVerif_C17_Random(t *testing.T) {
 	tr := verifkit.Open(t)
 	defer tr.Close()
-	n := verifkit.EnvInt("C17_SCENARIOS", verifkit.Pick(30, 300))
+	log.SetOutput(io.Discard)
+	n := verifkit.EnvInt("C17_SCENARIOS", verifkit.Pick(24, 300))
 	for i := 0; i < n; i++ {
 		rng := verifkit.Rng(int64(i))
 		r := &c17Run{tr: tr, snaps: map[string]int{}}
@@ -775,11 +829,16 @@ func TestVerif_C17_Random(t *testing.T) {
 			var sh c17Shard
 			for id := 1; id <= nrepos; id++ {
 				e := c17Repo{ID: uint32(id), Docs: c17RandDocs(rng, 1)}
-				if rng.Intn(3) == 0 {
+				switch rng.Intn(6) {
+				case 0, 1:
 					for _, d := range e.Docs {
 						if rng.Intn(2) == 0 {
 							e.FT = append(e.FT, d.Name)
 						}
+					}
+				case 2: // listed (when the query folds to TRUE) but never found
+					for _, d := range e.Docs {
+						e.FT = append(e.FT, d.Name)
 					}
 				}
 				sh.Repos = append(sh.Repos, e)
@@ -801,6 +860,7 @@ func TestVerif_C17_Random(t *testing.T) {
 			c.Queries = append(c.Queries, c17RandQuery(rng, ids, 2, true))
 		}
 		dir, paths := r.corpus(t, &c)
+		var evs []verifkit.M
 		if c.Kind == "compound" {
 			var ops []c17Op
 			for k, l := 0, 4+rng.Intn(8); k < l; k++ {
@@ -810,8 +870,9 @@ func TestVerif_C17_Random(t *testing.T) {
 				}
 				ops = append(ops, c17Op{Op: []string{"set", "set", "unset"}[rng.Intn(3)], ID: id})
 			}
-			r.steps(t, dir, paths, &c, 1, ops)
+			r.steps(t, dir, paths, &c, 1, ops, &evs)
 		}
+		r.flush(evs)
 		os.RemoveAll(dir)
 	}
 }
